@@ -12,7 +12,9 @@
         key has no handler).   → `vb <ok|unmatch|badkey|badsig|panic> <addr>:<verify>,…`
         (second token: what the MODEL's key-handler layer says `h.Address()` / `h.VerifyBytes` are)
     olvm <nsigs> <sig length> <chain id derived from the signature|~> <recovered sender|~>
-         <payload chain id|~> <payload from> <nonce> <memo>      → `olvm <ok|reject|panic>`
+         <payload chain id|~> <payload from> <nonce> <memo> <address of the named public key|~>
+         <payload type> <access list present 0|1> <payload bytes = Marshal(Unmarshal(bytes)) 0|1>
+                                                                 → `olvm <ok|reject|panic>`
 -/
 import OLP.Sig.Model
 
@@ -128,23 +130,26 @@ def doRaw (toks : List String) : String :=
 
 def doOlvm (toks : List String) : String :=
   match toks with
-  | [nsigs, siglen, dchain, rsender, pchain, sender, nonce, memo] =>
-    match nsigs.toNat?, siglen.toNat?, hexToBytes sender, nonce.toNat?, strOfHex memo with
-    | some k, some sl, some sender, some nonce, some memo =>
+  | [nsigs, siglen, dchain, rsender, pchain, sender, nonce, memo, keyaddr, txtype, al, canon] =>
+    match nsigs.toNat?, siglen.toNat?, hexToBytes sender, nonce.toNat?, strOfHex memo, txtype.toInt? with
+    | some k, some sl, some sender, some nonce, some memo, some tt =>
       let pc : Option (Option Int) := if pchain == "~" then some none else pchain.toInt?.map some
       let rs : Option (Option Bytes) := if rsender == "~" then some none else (hexToBytes rsender).map some
-      match pc, rs with
-      | some pc, some rs =>
+      let ka : Option (Option Bytes) := if keyaddr == "~" then some none else (hexToBytes keyaddr).map some
+      match pc, rs, ka with
+      | some pc, some rs, some ka =>
         let lib : EthLib Bytes Unit Unit :=
           { sigLen := fun _ => sl, chainOf := fun _ => (dchain.toInt?).getD 0, sender := fun _ _ => rs }
-        let v : OlvmView Bytes Unit Unit := { nonce := nonce, sender := sender, chainID := pc, eth := (), extra := () }
+        let v : OlvmView Bytes Unit :=
+          { nonce := nonce, sender := sender, chainID := pc, eth := (), extra := ⟨tt, al == "1"⟩ }
         let sigs : List (Sig Unit Unit) := List.replicate k ⟨(), ()⟩
-        match olvmSig lib v memo sigs with
+        -- payload bytes as a number: 0 is what was received, `encode` answers 0 iff it is canonical
+        match olvmValidate lib (fun _ => ka) (fun (_ : Nat) => some v) (fun _ => if canon == "1" then 0 else 1) 0 memo sigs with
         | .ok => "olvm ok"
         | .reject => "olvm reject"
         | .panic => "olvm panic"
-      | _, _ => "bad-op"
-    | _, _, _, _, _ => "bad-op"
+      | _, _, _ => "bad-op"
+    | _, _, _, _, _, _ => "bad-op"
   | _ => "bad-op"
 
 def stepLine (line : String) : String :=
